@@ -1,5 +1,5 @@
 """C03 — re-serializing a parsed packet preserves it."""
-import os, re
+import os, re, struct
 import common as C
 import pktcommon as PC
 
@@ -129,6 +129,23 @@ def run(ctx):
                 b = bytes([t, 0, 0, 0]) + word + bytes(rng.randrange(256) for _ in range(plen))
                 scripts.append(('ic%d' % k, ['parse %s x%s' % (ent, b.hex()), 'ser', 'view', 'rt ' + ent]))
                 k += 1
+    # ICMP / ICMPv6 error messages carrying an RFC 4884 extension structure (own encoder: quoted datagram padded to the length
+    # attribute, header with version 2 and checksum, objects with payloads of every length 0..9): objects must come back unchanged
+    import dissect as _D
+    for j in range(200 if quick else 4000):
+        ent, t, unit, lpos = rng.choice([('ICMP', 3, 4, 5), ('ICMP', 11, 4, 5), ('ICMP', 12, 4, 5), ('ICMPv6', 1, 8, 4), ('ICMPv6', 3, 8, 4)])
+        qlen = rng.choice([128, 128, 136, 160])
+        quoted = bytes(rng.randrange(1, 256) for _ in range(rng.choice([20, 28, 64, qlen]))).ljust(qlen, b'\0')
+        objs = b''.join(struct.pack('>HBB', 4 + len(o), rng.choice([1, 2, 3]), rng.randrange(1, 4)) + o
+                        for o in (bytes(rng.randrange(256) for _ in range(rng.randrange(0, 10))) for _ in range(rng.randrange(1, 4))))
+        ext = bytes([0x20, 0, 0, 0]) + objs
+        ext = ext[:2] + struct.pack('>H', 0xffff - _D.csum16(ext)) + ext[4:]
+        hdr = bytearray([t, 0, 0, 0, 0, 0, 0, 0])
+        hdr[lpos] = qlen // unit
+        b = bytes(hdr) + quoted + ext
+        if ent == 'ICMP':
+            b = b[:2] + struct.pack('>H', 0xffff - _D.csum16(b)) + b[4:]
+        scripts.append(('ie%d' % j, ['parse %s x%s' % (ent, b.hex()), 'ser', 'view', 'rt ' + ent]))
     for j in range(150 if quick else 3000):
         b, _ = PC.ipv6_ext_packet(rng)
         scripts.append(('x6%d' % j, ['parse IPv6 x' + b.hex(), 'ser', 'view', 'rt IPv6']))
